@@ -464,8 +464,8 @@ func (w *fwWorld) aim(r nebula.VerifFwRule, peer *nebula.VerifFwCert, p *firewal
 		peer.Issuer = r.CASha
 	}
 	if r.CAName != "" && c.Chance(0.7) {
-		for sha, n := range w.pool {
-			if n == r.CAName {
+		for _, sha := range fwCAShas { // fixed order: replays must be deterministic
+			if n, ok := w.pool[sha]; ok && n == r.CAName {
 				peer.Issuer = sha
 			}
 		}
